@@ -142,7 +142,7 @@ def cmd_check(args) -> int:
     if tier == "thorough" and xobls:
         # size the thorough tier by total wall time: if every obligation ran into its timeout the run would take
         # sum(timeouts)/jobs; scale the per-obligation budgets down (never below the quick budget) to fit VF_THOROUGH_BUDGET
-        budget = int(os.environ.get("VF_THOROUGH_BUDGET", "1500"))
+        budget = int(os.environ.get("VF_THOROUGH_BUDGET", "900"))
         total = sum(o.timeout for o in xobls)
         if total / jobs > budget:
             scale = budget * jobs / total
